@@ -42,8 +42,9 @@ ASSUMPTIONS = ["MAGNITUDE DOMAIN of world_to_view (and of the canvas function th
                "tolerance 1e-3 (kinds *_float32_oracle_only)",
                "theorems are about exact real arithmetic; binary64 rounding is covered only by the tolerance of the "
                "correspondence check on sampled inputs",
-               "the canvas matrix uses the float defaults near=0.1, far=2000: the traced z entries are the binary64 "
-               "constants the code computes; a lemma re-proved each run bounds their distance to the exact values by 1e-12",
+               "the canvas matrix uses the float defaults near=0.1, far=2000: the traced z entries are the closed binary64 "
+               "constants the code computes (read off the trace, whether multiplied symbolically or folded and rounded); the "
+               "lemma T_canvas*_stages re-proved each run bounds their distance to the exact values by 1e-9",
                "inputs that make the code divide by zero are outside the property; the model mirrors them as "
                "ZeroDivisionError (Python floats) / NaN marker (array division) and the correspondence samples them"]
 
@@ -186,10 +187,6 @@ Proof. intros. unfold {T}. cbv [app]; munf. list_eq_ring. Qed.""" % {"M": M, "P"
         imports=_IMPORTS))
 
     # ---- canvas: three stages, default near/far are Python floats so the z entries are binary64 constants ---
-    near, far = 0.1, 2000
-    zs_f, zt_f = -2 / (far - near), -(far + near) / (far - near)
-    zs_i, zt_i = (far - near) / -2, (far + near) / (far - near)
-    consts = {"zsf": _R(zs_f), "ztf": _R(zt_f), "zsi": _R(zs_i), "zti": _R(zt_i)}
     def canvas_dir(inverse):
         def run(w, h, p, t, zm):
             w, h, z = w[0], h[0], zm[0]
@@ -202,12 +199,11 @@ Proof. intros. unfold {T}. cbv [app]; munf. list_eq_ring. Qed.""" % {"M": M, "P"
 
     L = "({T} ROps {vars})"
     for inverse in (False, True):
-        d = dict(consts, P=P, T=T, unf=_UNF, entry=_ENTRY, gen=_GEN, inv="true" if inverse else "false",
-                 zs=consts["zsi" if inverse else "zsf"], zt=consts["zti" if inverse else "ztf"],
+        d = dict(P=P, T=T, unf=_UNF, entry=_ENTRY, gen=_GEN, inv="true" if inverse else "false",
                  # inverse=False: viewport @ projection @ view ; inverse=True: view^-1 @ projection^-1 @ viewport^-1
                  order=("(m4l (seg 1 %(L)s)) (m4l (seg 2 %(L)s))) (m4l (seg 3 %(L)s))" if inverse else
                         "(m4l (seg 3 %(L)s)) (m4l (seg 2 %(L)s))) (m4l (seg 1 %(L)s))"),
-                 bound="1 / 10 ^ 9" if inverse else "1 / 10 ^ 12")
+                 )
         text = _NZ + _ROB + """(* outputs: canvas matrix, then view / projection / viewport matrices (all for inverse=%(inv)s) from ONE run of the code:
    segment k = entries 16k .. 16k+15 *)
 Definition m4l (l : list R) : mat4 R :=
@@ -223,27 +219,35 @@ Lemma {T}_compose : forall {vars} : R,
   seg 0 %(L)s = mlist (mmul ROps (mmul ROps %(order)s).
 Proof. intros. unfold {T}. cbv [seg firstn skipn Nat.mul Nat.add m4l]; munf. %(gen)s. list_eq ltac:(first [reflexivity | ring]). Qed.
 
-(* 2. the stages are the modelled ones, with width/zoom, height/zoom, the default up = y, the viewport (0,0)-(w,h), and the
-      z entries of the projection as the code computes them from near=0.1 (binary64), far=2000 *)
-Definition zs : R := %(zs)s.  Definition zt : R := %(zt)s.
-Lemma {T}_stages : forall {vars} : R, 0 < w0 -> 0 < h0 -> 0 < zm0 ->
-  m4l (seg 1 %(L)s) = w2v_mat ROps %(P)s %(T)s (V3 0 1 0) %(inv)s /\\
-  m4l (seg 2 %(L)s) = ortho_mat_c ROps (w0 / zm0) (h0 / zm0) zs zt %(inv)s /\\
-  m4l (seg 3 %(L)s) = viewport_mat ROps w0 h0 0 0 %(inv)s.
-Proof. intros. unfold {T}, zs, zt. cbv [seg firstn skipn Nat.mul Nat.add m4l]. %(unf)s. abstract_sqrts.
-  repeat split; apply M4_ext; %(entry)s. Qed.
-
-(* ... which are the exact entries for near = 1/10, far = 2000 up to binary64 rounding *)
-Lemma {T}_constants :
-  Rabs (zs - ortho_zscale ROps (1 / 10) 2000 %(inv)s) <= %(bound)s /\\
-  Rabs (zt - ortho_ztrans ROps (1 / 10) 2000 %(inv)s) <= 1 / 10 ^ 12.
-Proof. unfold zs, zt, ortho_zscale, ortho_ztrans; rops. split; apply Rabs_le; lra. Qed.
-
-(* 3. hence the traced canvas matrix is the modelled one *)
-Lemma {T}_ok : forall {vars} : R, 0 < w0 -> 0 < h0 -> 0 < zm0 ->
-  seg 0 %(L)s = mlist (canvas_mat_c ROps zs zt w0 h0 %(P)s %(T)s zm0 %(inv)s).
+(* 2. the stages are the modelled ones, with width/zoom, height/zoom, the default up = y, the viewport (0,0)-(w,h).  The two z
+      entries of the projection matrix are whatever closed constants the code produced from near=0.1 (binary64), far=2000
+      (read off the trace by unification, so it does not matter whether the code multiplies them symbolically or folds and
+      rounds them first); they are within binary64 rounding of the exact entries for near = 1/10, far = 2000 *)
+Lemma {T}_stages : exists z22 z23 : R,
+  Rabs (z22 - ortho_zscale ROps (1 / 10) 2000 %(inv)s) <= 1 / 10 ^ 9 /\\
+  Rabs (z23 - ortho_z23 ROps (1 / 10) 2000 %(inv)s) <= 1 / 10 ^ 9 /\\
+  forall {vars} : R, 0 < w0 -> 0 < h0 -> 0 < zm0 ->
+    m4l (seg 1 %(L)s) = w2v_mat ROps %(P)s %(T)s (V3 0 1 0) %(inv)s /\\
+    m4l (seg 2 %(L)s) = ortho_mat_z ROps (w0 / zm0) (h0 / zm0) z22 z23 %(inv)s /\\
+    m4l (seg 3 %(L)s) = viewport_mat ROps w0 h0 0 0 %(inv)s.
 Proof.
-  intros {vars} Hw Hh Hz. destruct ({T}_stages {vars} Hw Hh Hz) as (S1 & S2 & S3).
+  eexists; eexists.
+  match goal with |- _ /\\ _ /\\ ?S => assert (HS : S) end.
+  { intros. unfold {T}. cbv [seg firstn skipn Nat.mul Nat.add m4l ortho_mat_z]. %(unf)s. abstract_sqrts.
+    split; [|split]; apply M4_ext; %(entry)s. }
+  split; [|split; [|exact HS]];
+    cbv [ortho_zscale ortho_ztrans ortho_z23 nfrac]; rops; unfold Rdiv; apply Rabs_le; lra.
+Qed.
+
+(* 3. hence the traced canvas matrix is the modelled one (canvas_mat = canvas_mat_z at the exact constants: P_viewing.canvas_mat_as_z) *)
+Lemma {T}_ok : exists z22 z23 : R,
+  Rabs (z22 - ortho_zscale ROps (1 / 10) 2000 %(inv)s) <= 1 / 10 ^ 9 /\\
+  Rabs (z23 - ortho_z23 ROps (1 / 10) 2000 %(inv)s) <= 1 / 10 ^ 9 /\\
+  forall {vars} : R, 0 < w0 -> 0 < h0 -> 0 < zm0 ->
+    seg 0 %(L)s = mlist (canvas_mat_z ROps z22 z23 w0 h0 %(P)s %(T)s zm0 %(inv)s).
+Proof.
+  destruct {T}_stages as (z22 & z23 & B1 & B2 & HS). exists z22, z23. split; [exact B1|]. split; [exact B2|].
+  intros {vars} Hw Hh Hz. destruct (HS {vars} Hw Hh Hz) as (S1 & S2 & S3).
   rewrite ({T}_compose {vars}), S1, S2, S3. reflexivity.
 Qed."""
         d["order"] = d["order"].replace("%(L)s", L)
